@@ -23,23 +23,26 @@ import numpy as np
 from harness import core
 from harness import lib_c02c14 as L
 from harness import lib_c14cf as CF
+from harness import lib_c14hist as FH
 
 FEAT = {"inline": False, "init": True, "unused": True, "func": True, "func_in_body": True, "nested_func": True,
         "vary": True, "collide": True, "rmax": True, "mixed": True, "generic": True, "func_if": True, "ml": True}
 
 
 # ------------------------------------------------------------------ (a) structure of the real build
-def extract_fgraph(spec):
+def extract_fgraph(spec, io=None):
     """-> (FGraph json, real outcome, imports records).
 
-    real outcome: ('ok', [[domain, name, fp], ...]) | ('err', 'runtime') | ('skip', why)"""
+    real outcome: ('ok', [[domain, name, fp], ...]) | ('err', 'runtime') | ('skip', why)
+    `io` = (inputs, outputs) of already existing Vars (a later model of a history) instead of realising `spec`."""
     from spox import _build, _graph
     from spox._function import Function
     from spox._internal_op import Argument
     from spox._public import _temporary_renames
 
     try:
-        inputs, outputs = CF.realise(spec) if spec.get("kind") == "cf" else L.realise(spec)
+        inputs, outputs = io if io is not None else (
+            CF.realise(spec) if spec.get("kind") == "cf" else L.realise(spec))
     except Exception as e:  # noqa: BLE001 - the program itself is rejected at construction time
         return None, ("skip", f"realise: {type(e).__name__}"), []
     fps: dict[bytes, int] = {}
@@ -351,6 +354,11 @@ def case_worker(task):
 def _case_worker(task):
     seed, idx, mode = task
     rng = random.Random(f"c14:{seed}:{idx}")
+    if mode == "fhist":
+        # several models over the SAME already-built call of a function that calls functions; every model judged
+        k = idx - 4 * 10**6
+        case = FH.HAND_CASES[k] if k < len(FH.HAND_CASES) else FH.gen_case(rng)
+        return {"mode": "fhist", "case": case, "recs": FH.judge_history(case)}
     if mode == "cf":
         # a function whose body holds control flow, applied at differently typed call sites in one model
         k = idx - 3 * 10**6
@@ -395,6 +403,29 @@ def _case_worker(task):
             except Exception as e:  # noqa: BLE001
                 r["fg"], r["real"], r["imports"] = None, ("unobservable", f"{type(e).__name__}: {e}"), []
         return r
+
+
+def judge_fhist(ck, fh_results):
+    """Verdicts of the function histories: every model of every history was judged in the worker."""
+    st = {"histories": len(fh_results), "models": 0, "returned": 0, "later_models": 0, "max_depth": 0, "steps": {}}
+    best = {}
+    for r in fh_results:
+        case = r["case"]
+        st["max_depth"] = max(st["max_depth"], case["depth"])
+        for n, rec in enumerate(r["recs"]):
+            st["models"] += 1
+            st["returned"] += int(rec["status"] == "ok")
+            st["later_models"] += int(n > 0)
+            lab = rec["label"].split(":", 1)[-1]
+            st["steps"][lab] = st["steps"].get(lab, 0) + 1
+            ck.count(("fhist", json.dumps(case, sort_keys=True), rec["label"]) if n > 0 and rec["status"] == "ok" else None)
+            for key, what in rec["fails"]:
+                cur = best.get(key)
+                if cur is None or len(json.dumps(case)) < len(json.dumps(cur[1])):
+                    best[key] = (what, case)
+    for key, (what, case) in list(best.items())[:4]:
+        ck.failure(key, what, {"fhist": case})
+    ck.cov["function_histories"] = st
 
 
 def judge_cf(ck, cf_results):
@@ -595,14 +626,16 @@ def run(ck: core.Check):
         # (the full thorough counts would take the quick tier far beyond its time budget on a loaded machine)
         return t if ck.thorough else (min(t, int(q * 2.5)) if escalated else q)
 
-    n_oracle = pick(700, 6000)
-    n_collect = pick(400, 4000)
-    n_sem = pick(250, 2500)
+    n_oracle = pick(450, 6000)
+    n_collect = pick(220, 4000)
+    n_sem = pick(150, 2500)
     tasks = ([(ck.seed, i, "oracle") for i in range(n_oracle)]
              + [(ck.seed, 10**6 + i, "collect") for i in range(n_collect)]
              + [(ck.seed, 2 * 10**6 + i, "sem") for i in range(n_sem)])
-    n_cf = len(CF.HAND_CASES) + pick(300, 2500)
+    n_cf = len(CF.HAND_CASES) + pick(160, 2500)
     tasks += [(ck.seed, 3 * 10**6 + i, "cf") for i in range(n_cf)]
+    n_fh = len(FH.HAND_CASES) + pick(120, 1500)
+    tasks += [(ck.seed, 4 * 10**6 + i, "fhist") for i in range(n_fh)]
     results = L.robust_map(case_worker, tasks, min(14, mp.cpu_count()), core.WORK)
     rng = ck.rng
     for hs in HAND_SPECS:
@@ -618,12 +651,23 @@ def run(ck: core.Check):
         ck.broken("correspondence", "C14 generated-program worker failed",
                   f"{len(crashes)} cases; first: {crashes[0]['crash']} {crashes[0].get('trace', '')[-400:]}")
     results = [r for r in results if not r.get("crash")]
+    fh_results = [r for r in results if r["mode"] == "fhist"]
+    results = [r for r in results if r["mode"] != "fhist"]
+    judge_fhist(ck, fh_results)
     cf_results = [r for r in results if r["mode"] == "cf"]
     results = [r for r in results if r["mode"] != "cf"]
     judge_cf(ck, cf_results)
     # (their structure also goes through the collection / imports correspondences below)
     cf_collect = [{"mode": "collect", "spec": r["case"], "fg": r["fg"], "real": r["real"], "imports": r["imports"],
                    "status": "cf", "stats": None, "fails": []} for r in cf_results if "fg" in r]
+    # later models of the function histories: their structure taken apart over the SAME (already built) objects
+    cf_collect += [{"mode": "collect", "spec": {"fhist": r["case"], "model": rec["label"]}, "fg": rec["fg"],
+                    "real": rec["real"], "imports": rec["imports"], "status": "fhist", "stats": None, "fails": []}
+                   for r in fh_results for rec in r["recs"] if "fg" in rec]
+    unobs_fh = [c for c in cf_collect if c["status"] == "fhist" and c["real"] and c["real"][0] == "unobservable"]
+    if unobs_fh:
+        ck.broken("correspondence", "C14 function collection of later models not observable",
+                  f"{len(unobs_fh)} models; first: {unobs_fh[0]['real'][1][:300]}")
     unobs = [r for r in results if r["mode"] == "collect" and r.get("real") and r["real"][0] == "unobservable"]
     if unobs:
         ck.broken("correspondence", "C14 function collection not observable (real Builder/Function internals changed?)",
@@ -793,6 +837,15 @@ def run(ck: core.Check):
 
 def replay(ck: core.Check, doc) -> bool:
     case = doc.get("case") or {}
+    if case.get("fhist") is not None:
+        failing = False
+        for rec in FH.judge_history(case["fhist"]):
+            if rec["status"] == "err":
+                print(f"{rec['label']} raised:", rec.get("err"))
+            for k, w in rec["fails"]:
+                print(f"{k}: {w}")
+            failing |= bool(rec["fails"])
+        return failing
     if case.get("cf") is not None:
         r = CF.judge(case["cf"], random.Random(0), case.get("feeds"))
         if r["status"] == "err":
